@@ -80,6 +80,10 @@ CHECKS = {
          "VTLSdmx transcribes the documented role table, type table and nullability rule; TLC (GenSdmx) maps EVERY data type known to the installed pysdmx (read at check time) x every role, and seeded structures of 1-5 components, to the documented VTL structure or to the input-validation error, and checks that dimensions are the only non-nullable components. Each structure is built as Schema, DataStructureDefinition and Dataflow and observed through to_vtl_json(), semantic_analysis(), run() and run_sdmx(): one component per SDMX component with the documented role, type and nullability, or an InputValidationException.",
          "SDMX-ML / SDMX-JSON structure files need pysdmx[xml], which is not installed: pysdmx objects only.",
          "TLC enumeration of the documented SDMX mapping tables replayed into the four API entry points"),
+ 'C29': ('model_checking',
+         "Names are plain strings in the specification (VTLDatasets: a component is [n, r, t], a datapoint a function from names), so Me_1 / me_1 / ME_1 are three components by construction and nothing in the spec ever compares names up to case. Every random unit of the modelled families (element-wise, clause chains, aggregations, set operators, temporal, joins, analytic) that the engine gets right with ordinary names is rewritten three ways - all names of a kind become case variants of ONE base name (DS_1 / ds_1, Id_1 / id_1 / ID_1, Me_1 / me_1 ...), every name gets an unusual spelling of its own (ME_2, iD_1: nothing collides), and the names CREATED by the statement (calc / aggr targets) become case variants of components the operand has - run, and each observation is validated by TLC (VTLOperators_Trace): every component keeps its own values and spelling and appears exactly where the spec says.",
+         "Only generated names are varied; engine-made names (bool_var, int_var ...) are left alone. Units are classified by where two names collide when case is ignored (dataset names / components of one input / created by the statement / nowhere); on the pinned tree the first three classes fail in one specific way each (known findings, DuckDB identifiers are case-insensitive), any other failure there and every failure of the collision-free class is reported.",
+         "TLC trace validation of case-variant rewritings of random units against the name-exact TLA+ semantics"),
  'C30': ('model_checking',
          "VTLConfig transcribes the documented ranges and defaults of OUTPUT_NUMBER_SIGNIFICANT_DIGITS (scale) and VTL_DUCKDB_DECIMAL_WIDTH (precision) and models storage under DECIMAL(width, scale) with schoolbook arithmetic on digit sequences (38-digit values do not fit TLC's 32-bit integers): rounding half away from zero to the scale, rejection of values needing more than width - scale integer digits, exact sums and differences. TLC (GenConfig) emits for every requested setting the documented verdict and, for accepted settings, the stored form of 11 probe values (all configured digits, one integer digit too many, half-way rounding of both signs, rounding that overflows the width, one unit in the last place ...) and exact sums / differences, and checks (a + b) - b = a on the probe set. Each setting is replayed in a FRESH interpreter with exact CSV inputs; sequences check that removing the variables restores the documented defaults.",
          "Quick tier: border values of each variable with the other unset, a grid of border pairs and seeded pairs; thorough: all 51 x 51 pairs of -5..45 plus unset. Returned doubles are compared with the exact decimal at 1e-13 relative tolerance. A scale above the width (both inside their documented ranges) is documented nowhere: only a raw error is reported there.",
